@@ -171,6 +171,21 @@ CHECKS: Dict[str, Dict[str, str]] = {
         note="Trusted: fractions.Fraction, the operator module, frozenset algebra; parsimonious' PEG semantics.",
         design="3/C04",
     ),
+    "C01": dict(
+        technique="static analysis: purity / alias lint over the solver classes, sibling-agreement of the memo slots, query-dependency "
+        "matrix, dataflow shape of every modulo() body (residue homomorphism), linear-form (interval + congruence) proof of "
+        "the repetition-count reduction, constant folding of the padding function",
+        text="Decides the structural necessary conditions of exactness, not the number theory itself: operators are immutable and "
+        "nothing obtained from a child, a cache slot or an instance container is mutated or returned by reference (this is "
+        "what makes 'operands are never changed' true); each memo slot holds exactly the child's answer to the same query; "
+        "min/max/modulo/expand only consult the same query of the children; every child residue query uses the divisor or an "
+        "lcm with it and every returned element is reduced modulo the divisor; the count reduction K = min(k, d + k mod d) is "
+        "proved exact for all k >= 0, d >= 1 from the sumset-stabilisation condition (K == k, or K ≡ k mod d with d-1 <= K <= k); "
+        "the public composition methods build the matching operator over the operands in order; _pad folds to ceil-to-multiple.",
+        note="Not decided: that the per-operator residue formulas equal the mathematical definition for all trees and divisors "
+        "(unbounded integers). Trusted: itertools, math.lcm, set arithmetic.",
+        design="3/C01",
+    ),
 }
 
 NOT_APPLICABLE: Dict[str, str] = {}
